@@ -125,6 +125,7 @@ fn main() {
             let mut bn = 0usize;
             macro_rules! big_run { ($n:expr, $w:expr, $tot:expr) => { $tot += big::run_size::<$n>($w); } }
             with_big_sizes!(big_run, &mut w, bn);
+            bn += big::long_repetitions(&mut w) + big::interleavings(&mut w) + big::read_to_string_cases(&mut w);
             // half-gigabyte inputs: release builds always, dev builds (much slower) in the thorough tier
             if thorough || !cfg!(debug_assertions) {
                 bn += big::huge_inputs(&mut w);
